@@ -43,3 +43,19 @@ Theorem c10_released_sequences_and_actions_consistent :
     /\ forallb (action_consistent fin) (all_objs sh) = true.
 Proof. intros d sh tr1 s1 k H I tr fin r0 r Ha Hp. exact (crash_released_consistent sh tr1 s1 k H I Ha Hp d tr fin r0 r). Qed.
 Print Assumptions c10_released_sequences_and_actions_consistent.
+
+(* (i), the plan rule: a plan Wait returns as Completed after the recovery was bypassed as a whole (its bypass group is
+   Completed) or has only Completed blocks and every pre / continuous / post / deferred group it has is Completed.
+   (The terminal plan write of a recovery is finalStates of the in-memory statuses, and nothing finalStates reads is
+   written after it: PlanInv.PL over the phase windows PlanInv.W.)  Again for every deviation flag set. *)
+Theorem c10_released_plan_consistent :
+  forall (d : devs) (sh : shape) (tr1 : list event) (s1 : st) (k : nat),
+    run sh init tr1 = Some s1 ->
+  forall (I : image) (tr : list event) (fin : image) (r0 r : rst),
+    image_agrees (all_objs sh) (fst (crash_image sh tr1 k)) (snd (crash_image sh tr1 k)) I = true ->
+    cst I OPlan = Running ->
+    rinit sh (dimg_of_image I) (im_reason I) = Some r0 ->
+    rrun d sh r0 (tr ++ [EvRelease fin]) = Some r ->
+    plan_consistent sh fin = true.
+Proof. intros d sh tr1 s1 k H I tr fin r0 r Ha Hp. exact (crash_released_plan_consistent sh tr1 s1 k H I Ha Hp d tr fin r0 r). Qed.
+Print Assumptions c10_released_plan_consistent.
